@@ -14,27 +14,34 @@ ClientIds == {"trusted", "other_ca", "self_signed", "none", "borrowed_chain_self
 ServerIds == {"trusted", "other_ca"}
 
 VARIABLES cid, sid,        \* identities presented
+          ctrust,          \* the CA the client was configured with: "T" (the one "trusted" refers to) or "O"
           state,           \* "start" | "server_verified" | "mutually_verified" | "refused" | "registered"
           via              \* "library" (client builder) | "raw" (plain QUIC peer)
-hvars == <<cid, sid, state, via>>
+hvars == <<cid, sid, ctrust, state, via>>
 
-HInit == cid \in ClientIds /\ sid \in ServerIds /\ state = "start" /\ via \in {"library", "raw"}
+HInit == cid \in ClientIds /\ sid \in ServerIds /\ ctrust \in {"T", "O"} /\ state = "start" /\ via \in {"library", "raw"}
              /\ (cid \in {"none", "borrowed_chain_self", "borrowed_chain_other"} => via = "raw")   \* not expressible with the client builder
+
+\* which CA an identity chains to ("-" = none that anybody trusts); the server is started with the
+\* CA of its own certificate set and so accepts client certificates of that set only
+ServerChainsTo(s_) == IF s_ = "trusted" THEN "T" ELSE "O"
+\* (the end-entity certificate decides: "borrowed_chain_other" leads with a certificate of set O)
+ClientChainsTo(c_) == IF c_ = "trusted" THEN "T" ELSE IF c_ \in {"other_ca", "borrowed_chain_other"} THEN "O" ELSE "-"
 
 \* the client checks the server's chain against the CA it was configured with
 ServerCertCheck == /\ state = "start"
-                   /\ state' = IF sid = "trusted" THEN "server_verified" ELSE "refused"
-                   /\ UNCHANGED <<cid, sid, via>>
+                   /\ state' = IF ServerChainsTo(sid) = ctrust THEN "server_verified" ELSE "refused"
+                   /\ UNCHANGED <<cid, sid, ctrust, via>>
 \* the server checks the client's chain against the CA it was started with
 ClientCertCheck == /\ state = "server_verified"
-                   /\ state' = IF cid = "trusted" THEN "mutually_verified" ELSE "refused"
-                   /\ UNCHANGED <<cid, sid, via>>
-Register == /\ state = "mutually_verified" /\ state' = "registered" /\ UNCHANGED <<cid, sid, via>>
+                   /\ state' = IF ClientChainsTo(cid) = ServerChainsTo(sid) THEN "mutually_verified" ELSE "refused"
+                   /\ UNCHANGED <<cid, sid, ctrust, via>>
+Register == /\ state = "mutually_verified" /\ state' = "registered" /\ UNCHANGED <<cid, sid, ctrust, via>>
 
 HNext == ServerCertCheck \/ ClientCertCheck \/ Register
 HSpec == HInit /\ [][HNext]_hvars
 
-MayRegister(c, s) == c = "trusted" /\ s = "trusted"
-Inv_NoTrafficUnlessMutuallyVerified == state = "registered" => MayRegister(cid, sid)
-EmitCase == state = "start" => PrintT(<<"CASE", ToJson([client |-> cid, server |-> sid, via |-> via])>>)
+MayRegister(c, s_, t) == ServerChainsTo(s_) = t /\ ClientChainsTo(c) = ServerChainsTo(s_)
+Inv_NoTrafficUnlessMutuallyVerified == state = "registered" => MayRegister(cid, sid, ctrust)
+EmitCase == state = "start" => PrintT(<<"CASE", ToJson([client |-> cid, server |-> sid, trust |-> ctrust, via |-> via])>>)
 =============================================================================
